@@ -2245,6 +2245,169 @@ theorem C01_complex_instance_write_read_partial {F} (ops : FloatOps F) (lex : Le
   obtain ⟨h1, _, _, h4, h5, h6, h7⟩ := complexInst_item ops lex cfg d strict hskip hcri hagg hmc hrep hsa lk i h
   exact ⟨h1, h4, h5, h6, h7⟩
 
+/-! #### the `Bal` side condition discharged for the scalar kinds that hold no parentheses -/
+
+/-- characters that balanced text may hold outside strings and parentheses -/
+def balc (c : Byte) : Bool := plainc c && c != 40 && c != 41
+
+theorem bal_of_balc : ∀ (t : List Byte), t.all balc = true → Bal t := by
+  intro t
+  induction t with
+  | nil => intro _; exact Bal.nil
+  | cons c t ih =>
+    intro h
+    simp only [List.all_cons, Bool.and_eq_true, balc, bne_iff_ne, ne_eq] at h
+    exact Bal.plain c t h.1.1.2 h.1.2 h.1.1.1 (ih h.2)
+
+theorem Bal.append_comma {a b : List Byte} (ha : Bal a) (hb : Bal b) : Bal (a ++ 44 :: b) := by
+  induction ha with
+  | nil => exact Bal.plain 44 b (by decide) (by decide) (by decide) hb
+  | plain c t h40 h41 hp ht ih => exact Bal.plain c _ h40 h41 hp ih
+  | str b0 t hb0 ht hnq ih =>
+    have e : 39 :: (b0 ++ 39 :: t) ++ 44 :: b = 39 :: (b0 ++ 39 :: (t ++ 44 :: b)) := by simp
+    rw [e]
+    refine Bal.str b0 _ hb0 ih ?_
+    cases t with
+    | nil => simp
+    | cons x xs => simpa using hnq
+  | nest inner t hi ht ihi iht =>
+    have e : 40 :: (inner ++ 41 :: t) ++ 44 :: b = 40 :: (inner ++ 41 :: (t ++ 44 :: b)) := by simp
+    rw [e]
+    exact Bal.nest inner _ hi iht
+
+theorem digit_balc {c : Byte} (h : isDigit c = true) : balc c = true := by
+  simp only [balc, plainc, Bool.and_eq_true, bne_iff_ne, ne_eq]
+  repeat' constructor
+  all_goals (intro hc; subst hc; revert h; decide)
+
+/-- values written without parentheses: everything of `Storable` but aggregates, select values, reals (whose written text
+    is only known to be a real numeral) and negative integers -/
+def PlainVal {F} : MVal F → Prop
+  | .aggr _ => False
+  | .one (.sel _ _) => False
+  | .one (.atom (.real _)) => False
+  | .one (.atom (.int i)) => 0 ≤ i
+  | _ => True
+
+theorem xdigit_balc {c : Byte} (h : isXDigit c = true) : balc c = true := by
+  simp only [balc, plainc, Bool.and_eq_true, bne_iff_ne, ne_eq]
+  repeat' constructor
+  all_goals (intro hc; subst hc; revert h; decide)
+
+theorem pw_balc {c : Byte} (h : pw c = true) : balc c = true := by
+  simp only [balc, plainc, Bool.and_eq_true, bne_iff_ne, ne_eq]
+  repeat' constructor
+  all_goals (intro hc; subst hc; revert h; decide)
+
+/-- the text written for a stored value of a plain kind is balanced -/
+theorem storable_bal {F} (env : Env F) (cfg : RWCfg) (a : AttrD) (v : MVal F) (h : Storable env a v) (hp : PlainVal v) :
+    Bal (writeAttr env.ops cfg env.dict a v) := by
+  cases h with
+  | null hopt hder hred =>
+    have : writeAttr env.ops cfg env.dict a (nullOf a : MVal F) = [36] := by
+      unfold nullOf; rw [hder]; simp only [Bool.false_eq_true, if_false]
+      cases hty : a.ty <;> simp [writeAttr, writeElemAttr, hty]
+    rw [this]; exact bal_of_balc _ (by decide)
+  | derived hder hred =>
+    have : writeAttr env.ops cfg env.dict a (.derived : MVal F) = [42] := rfl
+    rw [this]; exact bal_of_balc _ (by decide)
+  | int hty hder hred i hlo hhi =>
+    have h0 : 0 ≤ i := hp
+    obtain ⟨ds, hds, _, hdig, _⟩ := showInt_nonneg i h0
+    have : writeAttr env.ops cfg env.dict a (.one (.atom (.int i)) : MVal F) = showInt i := by
+      simp [writeAttr, hty, writeElemAttr, writeAtomCore]
+    rw [this, hds]
+    exact bal_of_balc _ (all_imp (fun c => digit_balc) _ hdig)
+  | str hty hder hred b hb =>
+    have : writeAttr env.ops cfg env.dict a (.one (.atom (.str (39 :: (b ++ [39])))) : MVal F) = 39 :: (b ++ [39]) := by
+      simp [writeAttr, hty, writeElemAttr, writeAtomCore]
+    rw [this]
+    exact Bal.str b [] hb Bal.nil (by simp)
+  | bin hty hder hred hex hne hhex =>
+    have he : hex.isEmpty = false := by cases hex <;> simp_all
+    have : writeAttr env.ops cfg env.dict a (.one (.atom (.bin hex)) : MVal F) = 34 :: (hex ++ [34]) := by
+      simp [writeAttr, hty, writeElemAttr, writeAtomCore, writeBinary, he]
+    rw [this]
+    refine bal_of_balc _ ?_
+    simp only [List.all_cons, List.all_append, List.all_nil, Bool.and_true, Bool.and_eq_true]
+    exact ⟨by decide, all_imp (fun c => xdigit_balc) _ hhex, by decide⟩
+  | real hty hder hred v hst hnn hbuf => exact absurd hp (by simp [PlainVal])
+  | enum ty hty het hder hred i name hget hne hname hfind hset =>
+    have htab : enumTable ty = (enumKindOf ty).table := by
+      rcases het with rfl | rfl | ⟨items, rfl⟩ <;> rfl
+    have : writeAttr env.ops cfg env.dict a (.one (.atom (.enum i)) : MVal F) = 46 :: (name ++ [46]) := by
+      simp [writeAttr, hty, writeElemAttr, writeAtomCore, htab, List.getD, hget]
+    rw [this]
+    refine bal_of_balc _ ?_
+    simp only [List.all_cons, List.all_append, List.all_nil, Bool.and_true, Bool.and_eq_true]
+    exact ⟨by decide, all_imp (fun c => pw_balc) _ hname, by decide⟩
+  | aggr ety hty hder hred es hes => exact absurd hp (by simp [PlainVal])
+  | selTyped n hty hder hred sd hsd m hmem hne hfind hkw av tok hleaf => exact absurd hp (by simp [PlainVal])
+  | selRef n hty hder hred sd hsd m hmem tg hent id h0 hhi hasg => exact absurd hp (by simp [PlainVal])
+  | ref tg hty hder hred id h0 hhi hfound =>
+    obtain ⟨ds, hds, _, hdig, _⟩ := showInt_nonneg id h0
+    have : writeAttr env.ops cfg env.dict a (.one (.atom (.ref id)) : MVal F) = 35 :: ds := by
+      simp [writeAttr, hty, writeElemAttr, writeAtomCore, hds]
+    rw [this]
+    refine bal_of_balc _ ?_
+    simp only [List.all_cons, Bool.and_eq_true]
+    exact ⟨by decide, all_imp (fun c => digit_balc) _ hdig⟩
+
+/-- … and so is the parameter list written for a part whose values are of plain kinds: the `Bal` side condition of
+    `StorablePart` holds -/
+theorem storableRec_bal {F} (env : Env F) (cfg : RWCfg) (as : List AttrD) (vs : List (MVal F)) (h : StorableRec env as vs)
+    (hp : ∀ v ∈ vs, PlainVal v) :
+    ∃ inner, renderParams (paramsOf env.ops cfg env.dict as vs) = inner ++ [41] ∧ Bal inner := by
+  induction h with
+  | one a v h =>
+    exact ⟨writeAttr env.ops cfg env.dict a v, by simp [paramsOf, renderParams, paramOf], storable_bal env cfg a v h (hp v (by simp))⟩
+  | cons a v as vs h ht ih =>
+    obtain ⟨inner', he, hb⟩ := ih (fun x hx => hp x (by simp [hx]))
+    have hne : ∃ q qs, paramsOf env.ops cfg env.dict as vs = q :: qs := by
+      cases ht with
+      | one a' v' h' => exact ⟨_, _, rfl⟩
+      | cons a' v' as' vs' h' ht' => exact ⟨_, _, rfl⟩
+    obtain ⟨q, qs, hq⟩ := hne
+    refine ⟨writeAttr env.ops cfg env.dict a v ++ 44 :: inner', ?_, Bal.append_comma (storable_bal env cfg a v h (hp v (by simp))) hb⟩
+    rw [hq] at he
+    simp only [paramsOf, hq, renderParams, paramOf, List.nil_append, he]
+    simp
+
+/-- a part whose values are of plain kinds is a `StorablePart` -/
+theorem storablePart_of_plain {F} (env : Env F) (cfg : RWCfg) (p : MPart F) (hkw : KeywordName p.name) (ed : EntityD)
+    (hent : env.dict.entity? p.name = some ed) (hrec : StorableRec env ed.ownAttrs p.vals) (hp : ∀ v ∈ p.vals, PlainVal v) :
+    StorablePart env cfg p :=
+  ⟨hkw, ed, hent, Or.inr ⟨hrec, storableRec_bal env cfg ed.ownAttrs p.vals hrec hp⟩⟩
+
+/-- **read ∘ write for externally mapped instances, without the side condition** (`_partial`): when the parts' values are
+    of the plain kinds (`PlainVal`: `$`, `*`, non-negative INTEGER, STRING, BINARY, ENUMERATION / BOOLEAN / LOGICAL,
+    references - everything of `Storable` that is written without parentheses; not REAL / NUMBER, selects, aggregates,
+    negative integers), the written parameter text is balanced (`storableRec_bal`) and
+    `C01_complex_instance_write_read_partial` holds unconditionally. -/
+theorem C01_complex_instance_plain_write_read_partial {F} (ops : FloatOps F) (lex : LexCfg) (cfg : RWCfg) (d : Dict) (strict : Bool)
+    (hskip : cfg.skipInstanceSkipsComments = true) (hcri : lex.criSkipsComments = true) (hagg : cfg.aggrSkipsComments = true)
+    (hmc : cfg.missingCheckEverySecond = false) (hrep : cfg.complexReportsError = true)
+    (hsa : cfg.stringNodeAppends = false) (lk : Lookup) (i : MInst F)
+    (h0 : 0 ≤ i.id) (hhi : i.id ≤ IStream.intMax) (hcx : i.complex = true) (hne : i.parts ≠ [])
+    (hparts : ∀ p ∈ i.parts, KeywordName p.name ∧ ∃ ed, d.entity? p.name = some ed ∧
+      ((ed.ownAttrs = [] ∧ p.vals = []) ∨
+       (StorableRec { ops := ops, lex := lex, cfg := cfg, dict := d, lookup := lk } ed.ownAttrs p.vals ∧ ∀ v ∈ p.vals, PlainVal v)))
+    (hnd : (i.parts.map (·.name)).Nodup) (hsorted : sortNames (i.parts.map (·.name)) = i.parts.map (·.name))
+    (hlegal : d.complexSets.contains (i.parts.map (·.name)) = true) :
+    (cxItemS d (crecOf ops cfg d i) [10] [10]).id = i.id ∧
+    (cxItemS d (crecOf ops cfg d i) [10] [10]).out = { i with state := .complete } ∧
+    (∀ K, 35 :: ((cxItemS d (crecOf ops cfg d i) [10] [10]).body ++ ((cxItemS d (crecOf ops cfg d i) [10] [10]).g ++ K)) =
+      writeInst ops cfg d i ++ K) ∧
+    Item1OK cfg d (cxItemS d (crecOf ops cfg d i) [10] [10]) ∧
+    Item2OK ops lex cfg d strict lk (cxItemS d (crecOf ops cfg d i) [10] [10]) := by
+  refine C01_complex_instance_write_read_partial ops lex cfg d strict hskip hcri hagg hmc hrep hsa lk i
+    ⟨h0, hhi, hcx, hne, ?_, hnd, hsorted, hlegal⟩
+  intro p hp
+  obtain ⟨hkw, ed, hent, hcase⟩ := hparts p hp
+  rcases hcase with hemp | ⟨hrec, hpl⟩
+  · exact ⟨hkw, ed, hent, Or.inl hemp⟩
+  · exact storablePart_of_plain _ cfg p hkw ed hent hrec hpl
+
 /-! ### the two halves composed, and their hypotheses on a concrete file -/
 
 /-- **the token the writer emits for a stored value denotes that value** (`storable_covered`, exported): for every stored
